@@ -5,6 +5,7 @@
 From Coq Require Extraction ExtrOcamlBasic.
 From HV Require Import Prelude.Py Prelude.State Prelude.Utf8.
 From HV Require Spec.IntRep Spec.HuffmanCode Spec.StaticTable Spec.DynTable Spec.SDecoder.
+From HV Require Model.Api.
 From HV Require Model.Data Model.Int Model.Table Model.HuffEnc Model.HuffDec Model.Decoder Model.Encoder Model.Rel.
 Extraction Language OCaml.
 Set Extraction KeepSingleton.
@@ -20,5 +21,5 @@ Separate Extraction
   HuffEnc.HuffmanEncoder_encode HuffDec.decode_huffman
   Decoder.Decoder_init Decoder.dstep Decoder.decode_huffman_m Decoder.HeaderTable_init
   Encoder.Encoder_init Encoder.estep Encoder.huffman_encode_m
-  Rel.ctx_of
+  Rel.ctx_of Api.Encoder_encode_api
   BinInt.Z.of_nat BinInt.Z.to_nat BinInt.Z.add BinInt.Z.mul.
